@@ -79,6 +79,23 @@ theorem pair_no_stall {oa ob : Opts} {ra rb : List Nat} (c : Cfg oa ob ra rb) (a
     pushesOf x (pathAB p) ≠ [] ∨ (∃ oB, p.b.objs[j]? = some oB ∧ oB.rxq ≠ []) ∨ acksOf x (pathBA p) ≠ [] :=
   established_blocked_has_work (reach_inv c as) e oA hoA hc
 
+open Penguin.Mux Penguin.Pair in
+/-- Every byte written becomes readable: in every reachable state of the pair, on every flow
+    established on both endpoints, once nothing of the flow is in transit any more and the reader has
+    emptied its queue and buffer, it has read exactly the bytes the writer's accepted writes carried —
+    and (by `pair_no_stall`) a writer still without credit then has an `Acknowledge` on its way. What
+    the harness's `written-not-readable` monitor samples on the real code. -/
+theorem pair_all_written_is_read_at_quiescence {oa ob : Opts} {ra rb : List Nat} (c : Cfg oa ob ra rb)
+    (as : List (Pair.Side × Pair.Act)) {x i j : Nat} (e : Established (Pair.run (Pair.init oa ob ra rb) as) x i j)
+    (hq : pushesOf x (pathAB (Pair.run (Pair.init oa ob ra rb) as)) = [])
+    (hr : ∀ oB, (Pair.run (Pair.init oa ob ra rb) as).b.objs[j]? = some oB → oB.buf = [] ∧ oB.rxq = []) :
+    let p := Pair.run (Pair.init oa ob ra rb) as
+    p.gb.rlog j = p.ga.wlog i := by
+  obtain ⟨oB, hoB, hd, _⟩ := established_bytes (reach_inv c as) e
+  obtain ⟨hb, hx⟩ := hr oB hoB
+  rw [hq, hb, hx] at hd
+  simpa using hd
+
 /-! Non-vacuity of `pair_no_stall`: window 1, one write in flight — the writer has no credit and the
     `Push` is in transit. -/
 private def pcfg1 : Mux.Opts := { rwnd := 1, threshold := 1 }
@@ -89,6 +106,15 @@ example : Pair.Established (Pair.run (Pair.init pcfg1 pcfg1 [7, 8] [9, 10]) pact
   ⟨by decide, by decide, by decide, by decide, by decide⟩
 example : ((Pair.run (Pair.init pcfg1 pcfg1 [7, 8] [9, 10]) pacts1).a.objs[0]?.map (·.credit)) = some 0 := by decide
 example : Pair.pushesOf 7 (Pair.pathAB (Pair.run (Pair.init pcfg1 pcfg1 [7, 8] [9, 10]) pacts1)) = [[1, 2, 3]] := by decide
+
+/-! Non-vacuity of `pair_all_written_is_read_at_quiescence`: the `Push` is processed and read. -/
+private def pacts1r : List (Pair.Side × Pair.Act) := pacts1 ++ [(.B, .recv), (.B, .read 0 9)]
+example : Pair.Established (Pair.run (Pair.init pcfg1 pcfg1 [7, 8] [9, 10]) pacts1r) 7 0 0 :=
+  ⟨by decide, by decide, by decide, by decide, by decide⟩
+example : Pair.pushesOf 7 (Pair.pathAB (Pair.run (Pair.init pcfg1 pcfg1 [7, 8] [9, 10]) pacts1r)) = [] ∧
+    ((Pair.run (Pair.init pcfg1 pcfg1 [7, 8] [9, 10]) pacts1r).b.objs[0]?.map (fun o => (o.buf, o.rxq))) = some ([], []) ∧
+    (Pair.run (Pair.init pcfg1 pcfg1 [7, 8] [9, 10]) pacts1r).gb.rlog 0 = [1, 2, 3] := by decide
+
 
 /-! Non-vacuity: the configuration that stalled before the threshold fix (own window 4, default
     threshold 8, peer window 16) now gets threshold 4 and is covered by `no_stall`. -/
